@@ -28,6 +28,7 @@ import Hdl21Model.Lemmas.Rename
 import Hdl21Model.Lemmas.Nets
 import Hdl21Model.Lemmas.InstBundle
 import Hdl21Model.Lemmas.ArrayPass
+import Hdl21Model.Lemmas.BundleConn
 namespace Hdl21.Props.C01
 open Hdl21 Hdl21.Pkg
 
@@ -409,5 +410,113 @@ example : (expand [("d", .sig 2), ("ck", .sig 1)] 3 [("d", .sig (.sig "bus" 6)),
     (fun r => r.map fun es => es.map fun pe => match pe.2 with | .part _ lo hi => (pe.1, lo, hi) | _ => (pe.1, 0, 0)) =
     some [[("d", 0, 2), ("ck", 0, 0)], [("d", 2, 4), ("ck", 0, 0)], [("d", 4, 6), ("ck", 0, 0)]] := by decide
 end Arrays
+
+/-! ## bundle-valued ports: what `BundleFlattener` connects the flattened ports to -/
+section BundleConnections
+open Hdl21.Bundles Hdl21.BundleConn
+
+/-- **Flattened ports are paired with members by path.** Whenever the re-connection of a bundle-valued port `port` answers, the
+    instance has exactly one connection per leaf path `π` of the port's bundle type, in that order, on the flattened port
+    `port_π`, and it is the scalar connectable the written connection holds at member path `π` — never one chosen by position. -/
+theorem bundle_connection_pairs_by_path (nm : String → List String → String) (env : Env) (port : String) (portTree : BTree)
+    (c : BConn) (cs : List (String × SConn)) (h : reconnect nm env port portTree c = .ok cs) :
+    ∃ s, resolve nm env c = .ok s ∧
+      cs.map (·.1) = ((flatten false false none portTree).map (·.path)).map (flatName port) ∧
+      ∀ k (hk : k < ((flatten false false none portTree).map (·.path)).length),
+        ∃ x, s.at ((flatten false false none portTree).map (·.path))[k] = some (.leaf x) ∧
+          cs[k]? = some (flatName port ((flatten false false none portTree).map (·.path))[k], x) := by
+  unfold reconnect at h
+  cases hr : resolve nm env c with
+  | error e => simp [hr] at h
+  | ok s =>
+    simp only [hr] at h
+    obtain ⟨h1, h2⟩ := connect_spec port s _ cs h
+    exact ⟨s, rfl, h1, h2⟩
+
+theorem connect_eq_map (port : String) (s : Scope) (g : Flat → SConn) :
+    ∀ fs : List Flat, (∀ f ∈ fs, s.at f.path = some (.leaf (g f))) →
+      connect port (fs.map (·.path)) s = .ok (fs.map (fun f => (flatName port f.path, g f)))
+  | [], _ => rfl
+  | f :: rest, h => by
+    simp only [List.map_cons, connect]
+    rw [h f (by simp), connect_eq_map port s g rest (fun x hx => h x (by simp [hx]))]
+
+/-- **A bundle instance of the port's own type** (member names distinct at every level of the definition) is connected member by
+    member: the flattened port `port_π` ends on the signal the instance's member `π` was flattened to, `nm b π`, of the leaf's
+    width — for every leaf path, whatever the depth and fan-out of the definition tree. -/
+theorem bundle_instance_connection_memberwise (nm : String → List String → String) (env : Env) (port b : String) (t : BTree)
+    (hb : lookupEnv b env = some t) (hwf : WFT t) :
+    reconnect nm env port t (.inst b) =
+      .ok ((flatten false false none t).map (fun f => (flatName port f.path, SConn.sig (nm b f.path) f.width))) := by
+  unfold reconnect
+  simp only [resolve, hb]
+  exact connect_eq_map port _ (fun f => SConn.sig (nm b f.path) f.width) _
+    (fun f hf => by simpa using scopeOf_at nm b t hwf [] false none f hf)
+
+/-- **A reference to a sub-bundle** stands for that part of its root: member `π` of `root.p` is member `p ++ π` of `root`. -/
+theorem subbundle_reference_is_relative (nm : String → List String → String) (env : Env) (root : String) (p : List String)
+    (t : BTree) (s : Scope) (hb : lookupEnv root env = some t) (h : resolve nm env (.ref root p) = .ok s) (π : List String) :
+    s.at π = (scopeOf nm root [] t).at (p ++ π) := by
+  simp only [resolve, hb] at h
+  cases ha : (scopeOf nm root [] t).at p with
+  | none => simp [ha] at h
+  | some s' =>
+    simp only [ha, Except.ok.injEq] at h
+    subst h
+    exact (Scope.at_append _ p π s' ha).symm
+
+/-- **A member of an anonymous bundle is found by its name**, wherever it stands among the fields, and whatever it is — a scalar
+    connectable, a bundle instance, a reference, another anonymous bundle: member `f :: π` of the anonymous bundle is member `π` of
+    its field `f`. -/
+theorem anonymous_bundle_member_by_name (nm : String → List String → String) (env : Env) (fs : List (String × BConn)) (s : Scope)
+    (h : resolve nm env (.anon fs) = .ok s) (f : String) (c : BConn) (hf : fs.find? (fun x => x.1 = f) = some (f, c))
+    (π : List String) : ∃ sc, resolve nm env c = .ok sc ∧ s.at (f :: π) = sc.at π := by
+  simp only [resolve] at h
+  cases hr : resolveFields nm env fs with
+  | error e => simp [hr] at h
+  | ok ms =>
+    simp only [hr, Except.ok.injEq] at h
+    subst h
+    obtain ⟨sc, hsc, hl⟩ := resolveFields_lookup nm env fs ms hr f c hf
+    exact ⟨sc, hsc, by simp [Scope.at, hl]⟩
+
+/-- **Refusals**: a leaf of the port's type for which the connection holds no scalar connectable (a missing member, or a whole
+    sub-bundle where a signal is needed) makes the pass raise; so does a bundle instance the module does not have and a reference
+    path its root does not have. Nothing is connected by position to make up for it. -/
+theorem bundle_connection_refusals (nm : String → List String → String) (env : Env) (port : String) (portTree : BTree) :
+    (∀ (c : BConn) (s : Scope) (π : List String), resolve nm env c = .ok s → π ∈ (flatten false false none portTree).map (·.path) →
+        (∀ x, s.at π ≠ some (.leaf x)) → ∃ e, reconnect nm env port portTree c = .error e) ∧
+    (∀ b, lookupEnv b env = none → ∃ e, reconnect nm env port portTree (.inst b) = .error e) ∧
+    (∀ root p t, lookupEnv root env = some t → (scopeOf nm root [] t).at p = none →
+        ∃ e, reconnect nm env port portTree (.ref root p) = .error e) := by
+  refine ⟨?_, ?_, ?_⟩
+  · intro c s π hr hm hno
+    unfold reconnect
+    simp only [hr]
+    exact connect_refuses port s _ π hm hno
+  · intro b hb
+    cases h : reconnect nm env port portTree (.inst b) with
+    | error e => exact ⟨e, rfl⟩
+    | ok cs => simp [reconnect, resolve, hb] at h
+  · intro root p t hb ha
+    cases h : reconnect nm env port portTree (.ref root p) with
+    | error e => exact ⟨e, rfl⟩
+    | ok cs => simp [reconnect, resolve, hb, ha] at h
+
+/-- Non-vacuity: a port of type `{x, s: {u (2 bits)}}` connected to an anonymous bundle whose fields come in the other order, `s`
+    given as a reference to a sub-bundle of another instance and `x` as a slice; and the same with `s` missing. -/
+example :
+    let sub : BTree := .node [⟨"u", 2, false, .none, none, none⟩] []
+    let pt : BTree := .node [⟨"x", 1, false, .none, none, none⟩] [("s", false, none, sub)]
+    let big : BTree := .node [⟨"y", 1, false, .none, none, none⟩] [("inner", true, none, sub)]
+    let env : Env := [("bb", big)]
+    let show_ := fun (r : Except String (List (String × SConn))) => match r with
+      | .ok cs => some (cs.map fun pc => (pc.1, match pc.2 with | .sig n w => (n, w) | _ => ("<slice>", 0)))
+      | .error _ => none
+    show_ (reconnect flatName env "p" pt (.anon [("s", .ref "bb" ["inner"]), ("x", .scalar (.slice (.sig "bus" 4) (.int 2)))])) =
+      some [("p_x", ("<slice>", 0)), ("p_s_u", ("bb_inner_u", 2))] ∧
+    show_ (reconnect flatName env "p" pt (.anon [("x", .scalar (.sig "a" 1))])) = none := by decide
+
+end BundleConnections
 
 end Hdl21.Props.C01
